@@ -100,9 +100,9 @@ def runOps (ip : Interp Float S I) (eq : List S) (showS : S → String) :
   | .mul m :: ops, c =>
     let r := stepObs floatArith ip eq (setPlaybackHzScale c m)
     showObs showS r.1 :: runOps ip eq showS ops r.2
-  | .setP s :: ops, c => "-" :: runOps ip eq showS ops (setPlaybackHzScale c s)
-  | .setS s :: ops, c => "-" :: runOps ip eq showS ops (setSampleHzScale floatArith c s)
-  | .setH a b :: ops, c => "-" :: runOps ip eq showS ops (setHzToHz floatArith c a b)
+  | .setP s :: ops, c => let c' := setPlaybackHzScale c s; s!"-/{c'.src.pos}" :: runOps ip eq showS ops c'
+  | .setS s :: ops, c => let c' := setSampleHzScale floatArith c s; s!"-/{c'.src.pos}" :: runOps ip eq showS ops c'
+  | .setH a b :: ops, c => let c' := setHzToHz floatArith c a b; s!"-/{c'.src.pos}" :: runOps ip eq showS ops c'
   | .until cap :: ops, c =>
     let n := countUntil floatArith ip eq cap c
     let c' := iter floatArith ip eq n c
